@@ -80,6 +80,12 @@ func synthetic() pipe.Tree {
 	for bits := 0; bits < 1<<nBits; bits++ {
 		name := fmt.Sprintf("k%03d", bits)
 		t["p/"+name+"/"+name+".go"] = source(name, bits)
+		if bits%4 == 1 {
+			// test files and constraint-excluded files are not part of the package
+			t["p/"+name+"/"+name+"_test.go"] = "package " + name + "\n\ntype OnlyInTest int\n\nfunc onlyInTestFunc() {}\n\nconst OnlyInTestConst = 1\n"
+			t["p/"+name+"/x_test.go"] = "package " + name + "_test\n\ntype OnlyInExtTest int\n"
+			t["p/"+name+"/ignored.go"] = "//go:build ignore\n\npackage " + name + "\n\ntype OnlyInIgnored int\n"
+		}
 	}
 	return t
 }
@@ -109,6 +115,17 @@ func checkUniverse(c *core.Ctx, corpus string, u *gengotypes.Universe, pkgPaths 
 			continue
 		}
 		scope := p.Pkg().Scope()
+		for _, n := range []string{"OnlyInTest", "OnlyInExtTest", "OnlyInIgnored"} {
+			if p.Type(n) != nil || p.Types()[n] != nil {
+				c.Fail("", cs, "%s lists the type %s, which is declared in a test file / a file excluded by its build constraint", path, n)
+			}
+		}
+		if p.Function("onlyInTestFunc") != nil || p.Constant("OnlyInTestConst") != nil {
+			c.Fail("", cs, "%s lists a function or constant declared in a test file", path)
+		}
+		if u.Package(path+"_test") != nil || u.Package(path+".test") != nil {
+			c.Fail("", cs, "the universe holds a test variant of %s", path)
+		}
 		nScope := 0
 		// tables == scope
 		wantT, wantC, wantF := map[string]types.Object{}, map[string]types.Object{}, map[string]types.Object{}
